@@ -494,6 +494,25 @@ func FormatBinaryTime(n int, data []byte) ([]byte, error) {
 	}
 }
 
+// splitTextDate splits a text date "YYYY-MM-DD" into its three numbers without
+// checking that they form a calendar date.
+func splitTextDate(s string) (year uint16, month uint8, day uint8, ok bool) {
+	if len(s) != 10 || s[4] != '-' || s[7] != '-' {
+		return 0, 0, 0, false
+	}
+	var n [10]int
+	for i := 0; i < 10; i++ {
+		if i == 4 || i == 7 {
+			continue
+		}
+		if s[i] < '0' || s[i] > '9' {
+			return 0, 0, 0, false
+		}
+		n[i] = int(s[i] - '0')
+	}
+	return uint16(n[0]*1000 + n[1]*100 + n[2]*10 + n[3]), uint8(n[5]*10 + n[6]), uint8(n[8]*10 + n[9]), true
+}
+
 // AppendBinaryValue encode binary-type value of prepare binary protocol according to type of value
 func AppendBinaryValue(data []byte, fieldType uint8, value interface{}) ([]byte, error) {
 	// constructor phase
@@ -580,12 +599,17 @@ func AppendBinaryValue(data []byte, fieldType uint8, value interface{}) ([]byte,
 		case TypeDate, TypeNewDate:
 			// format: 2006-01-02
 			ts, err := time.Parse("2006-01-02", v)
-			if err != nil {
-				t = append(t, 0)
-			} else {
+			if err == nil {
 				t = append(t, 4)
 				t = AppendUint16(t, uint16(ts.Year()))
 				t = append(t, byte(int(ts.Month())), byte(ts.Day()))
+			} else if year, month, day, ok := splitTextDate(v); ok && (year != 0 || month != 0 || day != 0) {
+				// not a calendar date, but a date MySQL stores and returns: 2020-00-00, 2021-02-30
+				t = append(t, 4)
+				t = AppendUint16(t, year)
+				t = append(t, month, day)
+			} else {
+				t = append(t, 0)
 			}
 		case TypeDuration:
 			timeValue, err := stringToMysqlTime(v)
